@@ -24,7 +24,12 @@ def timeClaim (v : String) : Option (Option Int) :=
   match v.toList with
   | [] | ['a'] => some none
   | 'i' :: r => (String.ofList r).toInt?.map some
-  | 'f' :: r => ((String.ofList r).splitOn ".").head?.bind (·.toInt?) |>.map some
+  | 'f' :: r =>
+    -- a JSON number with a fraction: jwt keeps whole seconds, rounding DOWN (`Time.Truncate`), also before the epoch (-5.999 ↦ -6)
+    let parts := (String.ofList r).splitOn "."
+    let frac := (parts.drop 1).headD ""
+    let neg := r.head? == some '-'
+    (parts.head?.bind (·.toInt?)).map fun i => some (if neg && frac.toList.any (fun c => c != '0') then i - 1 else i)
   | _ => none
 
 def strClaim (v : String) : Option String :=
